@@ -80,6 +80,7 @@ def _worker(args):
     sys.setrecursionlimit(5000)
     from sim.run import Sim
     mod = load_prop(pid)
+    mod.TIER = tier                 # generators may go deeper in the thorough tier
     sim = Sim('%s.%d' % (pid, idxs[0] if idxs else 0))
     st = Stats()
     viols = []
